@@ -67,6 +67,27 @@ OPS = [
     (r"accumulated_base", "accumulated_quote"), (r"accumulated_fee", "accumulated_quote"),
     (r"BIDS_V3", "BIDS_V2"), (r"is_base_restricted_marker", "is_quote_restricted_marker"),
     (r"is_quote_restricted_marker", "is_base_restricted_marker"),
+    # second table (after rounds 6-8 of the sub-agent changes): the slips those rounds were made of
+    (r"\.filter_map\(", ".map_while("),
+    (r'">=0', '">0'), (r'<0\.', '<=0.'), (r'">=', '">'),
+    (r" as u32", " as u8"), (r"\.u128\(\)", ".u128() as u64 as u128"),
+    (r"\bask_order\.base\.clone\(\)", "contract_info.base_denom.clone()"),
+    (r"\bask_order\.base\.to_owned\(\)", "contract_info.base_denom.to_owned()"),
+    (r"\bbid_fee\.amount\b", "bid_order.get_remaining_fee()"),
+    (r"get_remaining_fee\(\)", "fee.as_ref().map(|f| f.amount).unwrap_or_default()"),
+    (r"\bid\.as_bytes\(\)", "id.to_lowercase().as_bytes()"),
+    (r"Ordering::Less", "Ordering::Greater"), (r"Ordering::Greater", "Ordering::Less"),
+    (r"NAMESPACE_ORDER_ASK", "NAMESPACE_ORDER_BID"), (r"NAMESPACE_ORDER_BID", "NAMESPACE_ORDER_ASK"),
+    (r"Uint128::new\(18\)", "Uint128::new(19)"), (r"Uint128::new\(18\)", "Uint128::new(17)"),
+    (r"env\.contract\.address", "info.sender"), (r"\binfo\.sender\b", "env.contract.address"),
+    (r"\.first\(\)", ".last()"),
+    (r"\bconverted_base\.denom\b", "base"), (r"\bconverted_base\.amount\b", "size"),
+    (r"\bnet_proceeds\b", "actual_gross_proceeds"),
+    (r"Action::Reject", "Action::Refund"), (r"Action::Refund", "Action::Reject"),
+    (r"\.fract\(\)", ".trunc()"),
+    (r"round_dp_with_strategy\(0,", "round_dp_with_strategy(1,"),
+    (r"\.to_lowercase\(\)", ".to_uppercase()"),
+    (r"\.sender\.to_owned\(\)", ".sender.to_owned().to_lowercase()"),
 ]
 
 
